@@ -12,6 +12,7 @@ import (
 	"fmt"
 	"io"
 	"log"
+	"net"
 	"os"
 	"runtime"
 	"sync"
@@ -187,6 +188,33 @@ func raceScenarios() []raceScn {
 				})
 			pool.Stop()
 		}},
+		{"rate-limiter", func(it int) {
+			cfg := DefaultRateLimiterConfig()
+			cfg.CleanupInterval = time.Nanosecond // the periodic clean-up runs inside the calls
+			cfg.PerIPBurstSize, cfg.PerConnectionBurstSize = 3, 2
+			rl := NewRateLimiter(cfg)
+			raceGo(
+				func() { rl.AllowRequest("10.0.0.1", "c1"); rl.AllowOperation("10.0.0.1", OpTypeMount); rl.CleanupConnection("c1") },
+				func() { rl.AllowRequest("10.0.0.1", "c2"); rl.AllowOperation("10.0.0.1", OpTypeReaddir); rl.GetStats() },
+				func() { rl.AllowRequest("10.0.0.2", "c1"); rl.AllocateFileHandle("10.0.0.1"); rl.ReleaseFileHandle("10.0.0.1") },
+				func() { rl.AllowOperation("10.0.0.2", OpTypeReadLarge); rl.AllocateFileHandle("10.0.0.2"); rl.GetStats() },
+			)
+		}},
+		{"portmapper", func(it int) {
+			pm := NewPortmapper()
+			loop := &net.TCPAddr{IP: net.ParseIP("127.0.0.1"), Port: 700}
+			call := func(vers, proc uint32, args []byte) {
+				pm.handleCall(wire.Call(uint32(it), 100000, vers, proc, vCredNone, args), loop)
+			}
+			var m wire.Enc
+			m.U32(100003).U32(3).U32(6).U32(2049)
+			raceGo(
+				func() { pm.RegisterService(100003, 3, 6, 2049); pm.GetPort(100003, 3, 6); pm.UnregisterService(100003, 3, 6) },
+				func() { call(2, 1, m.B); call(2, 3, m.B); call(2, 4, nil) },
+				func() { call(2, 2, m.B); pm.GetMappings(); call(3, 4, nil) },
+				func() { pm.RegisterService(100005, 3, 6, 635); call(4, 4, nil); pm.GetPort(100005, 3, 6) },
+			)
+		}},
 		{"caches-and-handles", func(it int) {
 			ac := NewAttrCache(time.Hour, 2)
 			ac.ConfigureNegativeCaching(true, time.Hour)
@@ -217,7 +245,7 @@ func init() {
 	vRegister(&vCheck{
 		id: "C29.race", level: "exploration", flavour: "plain", raceBuild: true,
 		shards: func(string) int { return 4 },
-		rule: "free-running companion built with -race (real goroutines, real sync, barrier start), NOT exhaustive and not a deciding step of the model-checking claims: six scenario bodies (data path on one file; namespace operations in one directory; requests vs UpdatePolicyOptions/UpdateTuningOptions/UpdateExportOptions/metrics; connection handlers vs idle cleanup vs Stop; worker pool Submit/Execute/Resize/Stats/Stop; caches and handle table used directly) are each repeated 400 times (thorough 8000) in total; every report of Go's race detector (which has no false positives) becomes a violation whose signature is the pair of racing functions.",
+		rule: "free-running companion built with -race (real goroutines, real sync, barrier start), NOT exhaustive and not a deciding step of the model-checking claims: eight scenario bodies (rate limiter calls with the clean-up running inside them; portmapper registry calls; data path on one file; namespace operations in one directory; requests vs UpdatePolicyOptions/UpdateTuningOptions/UpdateExportOptions/metrics; connection handlers vs idle cleanup vs Stop; worker pool Submit/Execute/Resize/Stats/Stop; caches and handle table used directly) are each repeated 400 times (thorough 8000) in total; every report of Go's race detector (which has no false positives) becomes a violation whose signature is the pair of racing functions.",
 		assumptions: []string{"sampling: the absence of a report says nothing about schedules that did not occur"},
 		run: func(c *vCtx) {
 			n := 400
